@@ -107,17 +107,17 @@ def brightest_pixel(img, threshold, **kwargs):
 
     nPxls = int(round(threshold*img.shape[-1]*img.shape[-2]))
 
-    if len(img.shape)==2:
-        pxlValue = numpy.sort(img.flatten())[-nPxls]
-        img = img - pxlValue
-        img = img.clip(0, img.max())
+    # unsigned-integer frames would wrap around in the subtraction below
+    if img.dtype.kind in "ub":
+        img = img.astype(float)
 
-    elif len(img.shape)==3:
-        pxlValues = numpy.sort(
-                        img.reshape(img.shape[0], img.shape[-1]*img.shape[-2])
-                        )[:,-nPxls]
-        img = (img.T - pxlValues).T
-        img = img.clip(0, img.max())
+    # value of the nPxls-th brightest pixel of every image, whatever the
+    # number of leading axes
+    pxlValues = numpy.sort(
+                    img.reshape(img.shape[:-2] + (img.shape[-1]*img.shape[-2],))
+                    )[..., -nPxls]
+    img = img - numpy.asarray(pxlValues)[..., None, None]
+    img = img.clip(0, img.max())
 
     return centre_of_gravity(img)
 
@@ -152,6 +152,10 @@ def quadCell(img, **kwargs):
     Returns:
         ndarray: Array of centroid values
     """
+
+    # unsigned-integer pixels would wrap around in the differences below
+    if img.dtype.kind in "ub":
+        img = img.astype(float)
 
     xSum = img.sum(-2)
     ySum = img.sum(-1)
